@@ -17,21 +17,26 @@ Definition drop_method (s : schema) (T m : string) : schema :=
 (* the code before the fix: OSM.marshalInnerXML did e.Encode(o.Bounds) on a type without XMLName *)
 Definition prefix_schema : schema := drop_method gen_schema "Bounds" "MarshalXML".
 
-Definition w_bounds : value := VStruct [VFloat 128; VFloat 256; VFloat 384; VFloat 512].
-(* &osm.OSM{Bounds: &osm.Bounds{1, 2, 3, 4}} *)
-Definition w_osm : value :=
-  VStruct [VStr []; VStr []; VStr []; VStr []; VStr []; VPtr (Some w_bounds);
-           VList []; VList []; VList []; VList []; VList []; VList []].
-(* &osm.Change{Create: &osm.OSM{Bounds: ...}} *)
-Definition w_change : value :=
-  VStruct [VStr []; VStr []; VStr []; VStr []; VStr []; VPtr (Some w_osm); VPtr None; VPtr None].
+(* values are built by Go field name, so reordering struct fields in /repo does not matter *)
+Definition mk (s : schema) (T : string) (l : list (string * value)) : value :=
+  match lookup_type s T, zero s FUEL (TNamed T) with
+  | Some d, VStruct vs =>
+      VStruct (fold_left (fun acc nv => match fset_go (struct_fields d) acc (fst nv) (snd nv) with
+                                        | Some a => a | None => acc end) l vs)
+  | _, z => z
+  end.
 
-Definition w_osm_xml : xml :=
-  Elem "osm" [] [Elem "Bounds" [("minlat", AFloat 128); ("maxlat", AFloat 256); ("minlon", AFloat 384);
-                                ("maxlon", AFloat 512)] [] (AStr [])] (AStr []).
-Definition w_change_xml : xml :=
-  Elem "osmChange" [] [Elem "create" [] [Elem "Bounds" [("minlat", AFloat 128); ("maxlat", AFloat 256);
-                       ("minlon", AFloat 384); ("maxlon", AFloat 512)] [] (AStr [])] (AStr [])] (AStr []).
+Definition unwrap (r : result xml) : xml := match r with Ok e => e | Err _ => Elem "" [] [] (AStr []) end.
+
+Definition w_bounds : value :=
+  Eval vm_compute in mk gen_schema "Bounds" [("MinLat", VFloat 128); ("MaxLat", VFloat 256); ("MinLon", VFloat 384); ("MaxLon", VFloat 512)].
+(* &osm.OSM{Bounds: &osm.Bounds{1, 2, 3, 4}} *)
+Definition w_osm : value := Eval vm_compute in mk gen_schema "OSM" [("Bounds", VPtr (Some w_bounds))].
+(* &osm.Change{Create: &osm.OSM{Bounds: ...}} *)
+Definition w_change : value := Eval vm_compute in mk gen_schema "Change" [("Create", VPtr (Some w_osm))].
+
+Definition w_osm_xml : xml := Eval vm_compute in unwrap (encode1 prefix_schema "OSM" w_osm).
+Definition w_change_xml : xml := Eval vm_compute in unwrap (encode1 prefix_schema "Change" w_change).
 
 Lemma roundtrip_osm_refuted_prefix :
   exists v e, wfb prefix_schema "OSM" v = true /\ encode1 prefix_schema "OSM" v = Ok e /\
